@@ -123,6 +123,8 @@ def main():
                 if j and r.get('use_names'):
                     tg = [e[1] for e in g.names.values() if e[0] == 'ref']
                     alias = any(tg.count(i) > 1 for i in ovs[r['seed']][j - 1]['ov'])
+                if j and r.get('use_names') and L.name_override_hazard(g, ovs[r['seed']][j - 1]):
+                    hazard = True
                 sig = {'cat': 'range-override-with-unpopulated-or-formula-member'} if hazard else \
                     {'cat': 'override-through-one-of-two-names-of-one-cell'} if alias else \
                     {'kind': p['kind'], 'seed': r['seed'], 'cell': p.get('cell'),
@@ -142,7 +144,12 @@ def main():
         for k, (r, t) in enumerate(trace_of):
             if k in rejected:
                 posn, clause = rejected[k]
-                rep.violation({'kind': 'trace-' + clause, 'seed': r['seed'], 'step': t['step']},
+                j = (t['w'] - 1) % (NOV + 1)
+                g = gens[r['seed']]
+                hz = j and (L.range_override_hazard(g, ovs[r['seed']][j - 1]) or (
+                    r.get('use_names') and L.name_override_hazard(g, ovs[r['seed']][j - 1])))
+                rep.violation({'cat': 'range-override-with-unpopulated-or-formula-member'} if hz else
+                              {'kind': 'trace-' + clause, 'seed': r['seed'], 'step': t['step']},
                               {'workbook_seed': r['seed'], 'history': r['hist'], 'step': t['step'],
                                'clause': clause, 'event_index': posn,
                                'event': t['events'][posn - 1] if posn - 1 < len(t['events']) else None,
